@@ -1,3 +1,3 @@
 /-- translated from a fragment of `smells_like_watford` (dfs/identify.cc) -/
 def watford_start_sector (buf1 : Nat → Nat) (pos : Nat) : Nat :=
-  (buf1 ((pos + 7) % 4294967296))
+  ((buf1 ((pos + 7) % 4294967296)) ||| ((((buf1 ((pos + 6) % 4294967296)) &&& 3) <<< 8) % 4294967296))
